@@ -324,8 +324,10 @@ func runC19NAT(c C19NAT, info *kit.Info) *kit.Finding {
 						}
 					}
 				}
-				if k%5 == 4 {
-					time.Sleep(200 * time.Millisecond) // let the association expire and be re-created
+				if (k+i)%5 == 4 {
+					// let the association expire and be re-created; the clients are out of phase, so that one client's
+					// expiry (a delete in the table) coincides with another one's new association (an insert)
+					time.Sleep(200 * time.Millisecond)
 				}
 			}
 		}(i)
